@@ -37,6 +37,12 @@ fn nt_c08(p: &Plan, o: &RunOut) -> bool {
 fn nt_c09(_p: &Plan, o: &RunOut) -> bool {
     o.counters.sent_by_kind[crate::mirror::K_CHECKSUM as usize] >= 3 && o.probes.rollbacks >= 1
 }
+fn nt_c10(_p: &Plan, o: &RunOut) -> bool {
+    o.counters.dropped_window >= 1 && o.probes.frames_first >= 60
+}
+fn nt_c11(p: &Plan, o: &RunOut) -> bool {
+    o.probes.api_calls >= 1 && p.api.iter().any(|a| a.at_us > 500_000) && o.probes.sealed_frames >= 50
+}
 fn nt_c12(_p: &Plan, o: &RunOut) -> bool {
     o.probes.events.get("synchronized").copied().unwrap_or(0) >= 1 && (faults_fired(o) >= 1 || o.counters.injected >= 1)
 }
@@ -151,6 +157,30 @@ PropSpec {
     rule: "half of the runs: C01's space with desync detection on (interval 1..=12, sparse on/off, loss/duplication/reordering also of ChecksumReports) and deterministic games: no DesyncDetected may ever appear. Other half: saving not sparse, one peer's game computes different states from a seeded frame F on (consistently across its own re-simulations), ChecksumReports exempt from loss: every peer must receive DesyncDetected for a frame >= F involving the diverging peer before 1 s after its confirmed frame passes F + 4*interval + window + delay, carrying checksums the two peers really saved for that frame. Non-trivial = >= 3 checksum reports delivered and >= 1 rollback; distinct = distinct executed-schedule hash",
     nontrivial: nt_c09,
     required_probes: &["desync_events", "rollbacks", "drop_random", "game_perturbations_planned"],
+    assumptions: BASE_ASSUME,
+    twin: None,
+},
+PropSpec {
+    id: "C10",
+    level: "exploration",
+    quick_runs: 8000,
+    thorough_runs: 200_000,
+    default_seed: 1010,
+    rule: "3-4 peers with 1-2 players each, rollback mode (windows 1-12), delays, sparse on/off; one peer stops at a seeded instant; independently for every survivor the dying peer's packets are dropped from 0-150 ms before its death (so survivors hold different last frames for it and time it out at different instants); links between survivors only have latency and jitter. Oracles: no panic; once every survivor has disconnected the victim, all survivors' final inputs and statuses for the victim's players and their states agree on every frame sealed at all of them; survivors keep advancing. Non-trivial = packets of the dying peer were dropped for at least one survivor and >= 60 frames were simulated; distinct = distinct executed-schedule hash",
+    nontrivial: nt_c10,
+    required_probes: &["c10_runs_compared", "disconnected", "drop_window"],
+    assumptions: BASE_ASSUME,
+    twin: None,
+},
+PropSpec {
+    id: "C11",
+    level: "exploration",
+    quick_runs: 12_000,
+    thorough_runs: 300_000,
+    default_seed: 1111,
+    rule: "C01's space (2-3 peers, 1-2 local players, 0-2 spectators, rollback and lockstep) plus 1-8 set_input_delay(handle, 0..=6) calls per run: 20 % before the first frame, 20 % in the same tick as the previous call, the rest at seeded instants (also while stalled). Oracle: the input-delay reference model gives the true input per player and frame; owner, remotes and spectators must end with it on every sealed frame (C01/C03/C06 checks), no call may panic, nothing may stay stranded in the outgoing buffer. Non-trivial = >= 1 delay change executed after the session started plus >= 50 sealed frames; distinct = distinct executed-schedule hash",
+    nontrivial: nt_c11,
+    required_probes: &["api_calls", "delay_fills", "dropped_submissions", "sealed_frames", "spectator_frames"],
     assumptions: BASE_ASSUME,
     twin: None,
 },
